@@ -17,7 +17,7 @@ THEOREMS = [{'name': f'Props.C07.{n}', 'module': M} for n in [
     'C07_gen_merge_shape', 'C07_gen_join_cond_route', 'C07_gen_ref_branch', 'C07_gen_elim_tests', 'C07_gen_translated', 'C07_gen_object_query',
     'C07_merge_is_join', 'C07_join_pairs', 'C07_join_count', 'C07_null_never_matches', 'C07_F3_prefix_clash_raises',
     'C07_branch_is_evalRule', 'C07_rule_is_join', 'C07_refobj', 'C07_refobj_generation_rules',
-    'C07_elim_repaired_is_shared', 'C07_elim_result', 'C07_elimination_sound', 'C07_elimination_partial', 'C07_repaired_tests',
+    'C07_elim_current_is_shared', 'C07_tests_same_table', 'C07_elim_result', 'C07_elimination_sound', 'C07_elimination_partial', 'C07_repaired_tests',
     'C07_elimination_repaired', 'C07_F1_identity_pairing', 'C07_F2_null_key_linked', 'C07_F1_F2_repaired_behaviour',
     'C07_repaired_still_eliminates', 'C07_F4_referencing_map_lost', 'C07_F4_repaired_query']] + [
     {'name': 'Model.mergeFrames_eq_mergeDataP', 'module': 'MorphKgc.Lemmas.Join'},
@@ -27,13 +27,15 @@ THEOREMS = [{'name': f'Props.C07.{n}', 'module': M} for n in [
     {'name': 'Model.ref_rule_refinement', 'module': 'MorphKgc.Lemmas.JoinRefine'},
     {'name': 'Model.elimination_sameOutcome', 'module': 'MorphKgc.Lemmas.JoinElimSound'}]
 # hypothesis-free theorems of the repaired shapes the translator reads from /repo now (Props/C07Now.lean)
-THEOREMS += [{'name': f'Props.C07.{n}', 'module': 'MorphKgc.Props.C07Now'} for n in ['C07_current_elim_shape', 'C07_current_object_query', 'C07_elimination_current', 'C07_shared_model_is_current', 'C07_objects_seen_current']]
-LINKS = [{'target': 'MorphKgc.Props.C07Doc', 'needs': ['MorphKgc.Props.C01'], 'theorems': [{'name': f'Props.C07Doc.{n}', 'module': 'MorphKgc.Props.C07Doc'} for n in ['C07_doc_refinement', 'C07_doc_no_raise', 'C07_doc_no_extra', 'C07_doc_no_missing', 'C07_doc_refinement_extends_C01', 'ref_combo_refines', 'Cw.same_lsv_other_source_engine', 'Cw.same_lsv_other_source_spec', 'Cw.same_lsv_other_source_rest', 'Cw.no_condition_engine', 'Cw.no_condition_spec']]}]
+THEOREMS += [{'name': f'Props.C07.{n}', 'module': 'MorphKgc.Props.C07Now'} for n in ['C07_current_elim_shape', 'C07_current_object_query', 'C07_current_same_table', 'C07_elimination_current', 'C07_shared_model_is_current', 'C07_objects_seen_current']]
+LINKS = [{'target': 'MorphKgc.Props.C07Doc', 'needs': ['MorphKgc.Props.C01'], 'theorems': [{'name': f'Props.C07Doc.{n}', 'module': 'MorphKgc.Props.C07Doc'} for n in ['C07_doc_refinement', 'C07_doc_no_raise', 'C07_doc_no_extra', 'C07_doc_no_missing', 'C07_doc_refinement_extends_C01', 'ref_combo_refines', 'Cw.same_lsv_other_source_engine', 'Cw.same_lsv_other_source_spec', 'Cw.same_lsv_other_source_rest', 'Cw.same_lsv_other_source_fixed', 'Cw.no_condition_engine', 'Cw.no_condition_spec']]}]
 RULE = ('a child triples map with one referencing object map (1-3 join conditions, optional graph maps, optional second plain '
         'predicate-object map) and a parent triples map (subject map over join columns only / other columns / both / constant; optional '
         'own predicate-object map) over two tables with duplicate keys on both sides, NULL keys ("" / nan / JSON null / SQL NULL), '
         'unmatched keys, non-key join columns and shared column names; source pairs: same CSV file, two CSV files, CSV x JSON, JSON x CSV, '
-        'same JSON file (same / different iterator), same SQLite table, two SQLite tables, SQLite query x table; both output formats. '
+        'same JSON file (same / different iterator), same SQLite table, two SQLite tables, SQLite query x table, two configuration '
+        'sections with their own SQLite database and the SAME table name (sql_xsec, finding C07_F5; the first one is a fixed case: '
+        'join and parent subject over the one shared column); both output formats. '
         'Each case: (a) DIRECT ORACLE = nested-loop join computed in Python from the raw tables vs materialize_set, (b) for same-source '
         'pairs the same mapping with the parent reading a copy of the source (elimination impossible) vs the original, (c) '
         'correspondences: _merge_data vs Model.mergeFrames on generated frames (I4, both code paths, clashes, missing columns), real rule '
@@ -51,7 +53,12 @@ ASSUMPTIONS = ['cell values of generated cases are [a-z0-9] strings, so that ter
                '(escaping is C01/C05); JSON / SQLite values are strings or NULL (type formatting is C10/C11)',
                'iterators are outside the model: the different-iterator JSON cases are decided by the Python oracle only',
                'referencing object maps without join condition over different sources (IndexError in merge) are not generated: the '
-               'property quantifies over one or several conditions']
+               'property quantifies over one or several conditions',
+               'cross-section cases (sql_xsec): the parent subject map is IRI-valued (a blank-node parent subject in ANOTHER section '
+               'gives objects `<Pb>` instead of `_:Pb`, because _complete_termtypes completes the term type of a referencing object map '
+               'from the parent subject map within the mapping graph of one section only: observed on the real engine, a candidate '
+               'finding of its own, not generated here) and the parent triples map has a predicate-object map (a mapping file whose '
+               'triples maps have none makes the parser raise KeyError object_map)']
 
 NA = ('', 'nan')
 RMLNS = 'http://w3id.org/rml/'
@@ -61,7 +68,10 @@ RMLNS = 'http://w3id.org/rml/'
 # cases
 # ----------------------------------------------------------------------------------------------------
 
-KINDS = ['csv_same', 'csv_diff', 'csv_json', 'json_csv', 'json_same', 'json_iter', 'sql_same', 'sql_diff', 'sql_query']
+KINDS = ['csv_same', 'csv_diff', 'csv_json', 'json_csv', 'json_same', 'json_iter', 'sql_same', 'sql_diff', 'sql_query', 'sql_xsec']
+# sql_xsec: child and parent triples map in two configuration sections (`A`, `B`), each with its own SQLite database; both read a
+# table named `t` (same logical_source_value, different source_name, different rows): a join, never a self-join (finding C07_F5)
+XSEC = 'sql_xsec'
 SAME = {'csv_same', 'json_same', 'sql_same'}
 KEYVALS = ['a', 'b', 'c', '1', '2']
 
@@ -115,12 +125,15 @@ def gen_case(rng, kind=None, clash=False):
     kind = kind or rng.choice(KINDS)
     same = kind in SAME or kind == 'json_iter'
     cfmt = {'csv': 'csv', 'jso': 'json', 'sql': 'sql'}[kind[:3]]
-    pfmt = cfmt if kind.split('_')[1] in ('same', 'diff', 'iter', 'query') else kind.split('_')[1]
+    pfmt = cfmt if kind.split('_')[1] in ('same', 'diff', 'iter', 'query', 'xsec') else kind.split('_')[1]
     if pfmt == 'query':
         pfmt = 'sql'
     pool = ['id', 'k', 'k2', 'v', 'w']
     ccols = ['id'] + rng.sample(pool[1:], rng.randrange(1, 4))
-    if same:
+    # two sections: mostly the same table layout on both sides, so that the tests of the self-join elimination other than the one
+    # of the section hold (same table name, conditions on equal column names, parent subject over the join columns)
+    like_same = same or (kind == XSEC and rng.random() < 0.75)
+    if like_same:
         pcols = list(ccols)
     else:
         pcols = ['id'] + rng.sample(pool[1:] + ['j'], rng.randrange(1, 4))
@@ -128,7 +141,7 @@ def gen_case(rng, kind=None, clash=False):
     conds = []
     for _ in range(nconds):
         c = rng.choice([x for x in ccols if x != 'id'] or ccols)
-        if same and rng.random() < 0.75:
+        if like_same and rng.random() < 0.75:
             p = c
         else:
             p = rng.choice([x for x in pcols if x != 'id'] or pcols)
@@ -148,7 +161,9 @@ def gen_case(rng, kind=None, clash=False):
     ckeys = {c for c, _ in conds}
     pkeys = {p for _, p in conds}
     cpom = {'pred': 'http://ex.org/q/c', 'ref': rng.choice(ccols)} if rng.random() < 0.3 else None
-    ppom = {'pred': 'http://ex.org/q/p', 'ref': rng.choice(pcols)} if rng.random() < 0.4 else None
+    # (a mapping file of its own whose triples maps have no predicate-object map at all makes the parser raise KeyError 'object_map':
+    # the parent of a cross-section case always gets one)
+    ppom = {'pred': 'http://ex.org/q/p', 'ref': rng.choice(pcols)} if (rng.random() < 0.4 or kind == XSEC) else None
     nullable = {x['ref'] for x in (cpom, ppom) if x} - {'id'}
     crows = gen_rows(rng, ccols, ckeys | (pkeys if same else set()), rng.randrange(0, 7), cfmt, nullable)
     prows = crows if same else gen_rows(rng, pcols, pkeys, rng.randrange(0, 7), pfmt, nullable)
@@ -156,13 +171,18 @@ def gen_case(rng, kind=None, clash=False):
     x = rng.random()
     pk = sorted(pkeys)
     others = [c for c in pcols if c not in pkeys]
-    if x < 0.35 or not others:
-        prefer = pk if rng.random() < 0.6 else [rng.choice(pk)]
+    if x < 0.35 or not others or (kind == XSEC and like_same and x < 0.8):
+        prefer = pk if (rng.random() < 0.6 or kind == XSEC) else [rng.choice(pk)]
     elif x < 0.7:
         prefer = [rng.choice(others)]
     else:
         prefer = [rng.choice(pk), rng.choice(others)]
     psubj = gen_subject(rng, pcols, prefer, 'P')
+    if kind == XSEC and psubj['termtype'] == 'bnode':
+        # see ASSUMPTIONS: the term type of a referencing object map is completed from the parent subject map inside the mapping graph
+        # of ONE section (`_complete_termtypes`); a blank-node parent subject in another section yields IRIs `<Pb>` instead of `_:Pb`
+        tpl = {'pre': 'http://ex.org/P/', 'parts': psubj['tpl']['parts']}
+        psubj = {'kind': 'template', 'tpl': tpl, 'value': cg.render_tpl(tpl), 'termtype': 'iri'}
     x = rng.random()
     cprefer = ['id'] if x < 0.6 else ([rng.choice(sorted(ckeys))] if x < 0.8 else [rng.choice(ccols)])
     if clash and rng.random() < 0.5:
@@ -222,6 +242,8 @@ def build(case, d, parent_copy=False):
     """writes sources, mapping and returns (config text, abstract document, model tables)"""
     os.makedirs(d, exist_ok=True)
     kind = case['kind']
+    if kind == XSEC:
+        return build_xsec(case, d)
     cfmt = {'csv': 'csv', 'jso': 'json', 'sql': 'sql'}[kind[:3]]
     tail = kind.split('_')[1]
     pfmt = cfmt if tail in ('same', 'diff', 'iter', 'query') else tail
@@ -282,6 +304,46 @@ def build(case, d, parent_copy=False):
     tables = [cg.table_json('DS', clsv, mrows(case['crows'], case['ccols']))]
     if plsv != clsv:
         tables.append(cg.table_json('DS', plsv, mrows(case['prows'], case['pcols'])))
+    return cfg, doc, tables
+
+
+def build_xsec(case, d):
+    """two configuration sections `A` (child triples map) and `B` (parent triples map), each with its own mapping file and its own
+    SQLite database; both logical tables are `rr:tableName "t"`"""
+    CID, PID = 'http://ex.org/tm/C', 'http://ex.org/tm/P'
+    ctm = {'id': CID, 'source': 't', 'source_name': 'A', 'subject': dict(case['csubj'], classes=[], graphs=[]), 'poms': [
+        {'predicates': [{'kind': 'constant', 'value': case['pred'], 'termtype': 'iri'}],
+         'objects': [{'parent': PID, 'join': [list(c) for c in case['conds']]}], 'graphs': case['graphs']}]}
+    if case.get('cpom'):
+        ctm['poms'].append({'predicates': [{'kind': 'constant', 'value': case['cpom']['pred'], 'termtype': 'iri'}],
+                            'objects': [{'kind': 'reference', 'value': case['cpom']['ref'], 'termtype': 'literal'}], 'graphs': []})
+    ptm = {'id': PID, 'source': 't', 'source_name': 'B', 'subject': dict(case['psubj'], classes=[], graphs=[]), 'poms': []}
+    if case.get('ppom'):
+        ptm['poms'].append({'predicates': [{'kind': 'constant', 'value': case['ppom']['pred'], 'termtype': 'iri'}],
+                            'objects': [{'kind': 'reference', 'value': case['ppom']['ref'], 'termtype': 'literal'}], 'graphs': []})
+    secs = []
+    for name, tm, cols, rows in (('A', ctm, case['ccols'], case['crows']), ('B', ptm, case['pcols'], case['prows'])):
+        sd = os.path.join(d, name)
+        os.makedirs(sd, exist_ok=True)
+        dbp = os.path.join(sd, 'db.sqlite')
+        con = sqlite3.connect(dbp)
+        ls, _ = write_table(sd, 't', 'sql', cols, rows, con)
+        con.close()
+        ttl = cg.render_doc({'tms': [tm]})
+        src = f'rml:logicalSource [ rml:source {cg.turtle_str("t")} ; rml:referenceFormulation ql:CSV ]'
+        assert ttl.count(src) == 1
+        mp = os.path.join(sd, 'm.ttl')
+        with open(mp, 'w', encoding='utf-8') as f:
+            f.write(ttl.replace(src, ls))
+        secs.append(f'[{name}]\nmappings={mp}\ndb_url=sqlite:///{dbp}\n')
+    if case.get('parent_first'):
+        secs.reverse()
+    cfg = cg.config_text('', fmt=case['fmt']).split('[DS]')[0] + ''.join(secs)
+    doc = {'tms': [ptm, ctm] if case.get('parent_first') else [ctm, ptm]}
+
+    def mrows(rows, cols):
+        return [{c: ('' if r[c] is None else r[c]) for c in cols} for r in rows]
+    tables = [cg.table_json('A', 't', mrows(case['crows'], case['ccols'])), cg.table_json('B', 't', mrows(case['prows'], case['pcols']))]
     return cfg, doc, tables
 
 
@@ -390,8 +452,20 @@ def variants(case):
 
 
 def elim_tests_found(case):
-    """same logical source and iterator, every condition compares a column with itself"""
-    return case['kind'] in SAME and all(a == b for a, b in case['conds'])
+    """same logical source and iterator, every condition compares a column with itself (the code as found did not look at the
+    configuration section: two sections with a table of the same name pass these tests, finding C07_F5)"""
+    return (case['kind'] in SAME or case['kind'] == XSEC) and all(a == b for a, b in case['conds'])
+
+
+def elim_tests_repaired(case):
+    """… and, since the repair of C07_F1 / C07_F2, the parent subject map refers to exactly the join columns"""
+    return elim_tests_found(case) and case['psubj']['kind'] in ('template', 'reference', 'constant') and \
+        set(refs_of(case['psubj'])) == {p for _, p in case['conds']}
+
+
+def scope_F5(case):
+    """the tests of the self-join elimination other than the one of the section hold for two triples maps of different sections"""
+    return case['kind'] == XSEC and elim_tests_repaired(case)
 
 
 def scope_F1(case):
@@ -423,14 +497,15 @@ def scope_F3(case):
 def rules_json_for_scopes(case, g):
     def mt(tm):
         return {'constant': 'constant', 'reference': 'reference', 'template': 'template'}[tm['kind']]
-    same = case['kind'] in SAME
+    same = case['kind'] in SAME or case['kind'] == XSEC
     child = {'triples_map_id': '#C', 'source_name': 'DS', 'logical_source_value': 'src', 'subject_map_type': mt(case['csubj']),
              'subject_map_value': case['csubj']['value'], 'predicate_map_type': 'constant', 'predicate_map_value': case['pred'],
              'object_map_type': 'parentTM', 'object_map_value': '#P', 'object_join': case['conds'],
              'graph_map_type': 'constant', 'graph_map_value': RMLNS + 'defaultGraph'}
     if g:
         child['graph_map_type'], child['graph_map_value'] = mt(g), g['value']
-    parent = {'triples_map_id': '#P', 'source_name': 'DS', 'logical_source_value': 'src' if same else 'src2', 'asserted': False,
+    parent = {'triples_map_id': '#P', 'source_name': 'DS2' if case['kind'] == XSEC else 'DS',
+              'logical_source_value': 'src' if same else 'src2', 'asserted': False,
               'subject_map_type': mt(case['psubj']), 'subject_map_value': case['psubj']['value']}
     return [child, parent]
 
@@ -467,6 +542,8 @@ def one_case(ctx, drv, case, d):
              sample={'kind': case['kind'], 'conds': case['conds'], 'pairs': pairs, 'rows': [len(case['crows']), len(case['prows'])],
                      'lines': got[:2] if kind == 'ok' else got})
     ctx.bump(f'conditions={min(len(case["conds"]), 3)}')
+    if scope_F5(case):
+        ctx.bump('two sections, same table name, every other test of the self-join elimination holds (C07_F5)')
     if dup:
         ctx.bump('many-to-many / duplicate keys')
     ctx.traces_validated += 1
@@ -494,7 +571,8 @@ def one_case(ctx, drv, case, d):
     for g in variants(case):
         sc = drv.call('c07_scopes', rules=rules_json_for_scopes(case, g), index=0)
         if sc is not None:
-            py = {'tests_found': elim_tests_found(case), 'F1': scope_F1(case), 'F2': scope_F2_rule(case, g)}
+            py = {'tests_found': elim_tests_found(case), 'tests_repaired': elim_tests_repaired(case), 'F1': scope_F1(case),
+                  'F2': scope_F2_rule(case, g)}
             if any(sc[k] != v for k, v in py.items()):
                 ctx.disagree('scope predicates (Python vs Model.scope_C07_F1/F2, elimTests)', case, {k: sc[k] for k in py}, py)
     if kind != 'ok' or rules is None or scope_F3(case):
@@ -664,6 +742,15 @@ FIXED = [
 for _c in FIXED:
     _c.setdefault('prows', _c['crows'])
 
+# C07_F5: two configuration sections with their own SQLite database, both with a table `t`; join on `k`, parent subject over `k`:
+# a join between two different tables (one pair), not a self-join (the row `y` of section A has no partner in section B)
+XSEC_FIXED = {'kind': 'sql_xsec', 'ccols': ['k'], 'pcols': ['k'], 'crows': [{'k': 'x'}, {'k': 'y'}], 'prows': [{'k': 'x'}],
+              'csubj': {'kind': 'template', 'tpl': {'pre': 'http://ex.org/C/', 'parts': [['k', '']]}, 'value': 'http://ex.org/C/{k}', 'termtype': 'iri'},
+              'psubj': {'kind': 'template', 'tpl': {'pre': 'http://ex.org/P/', 'parts': [['k', '']]}, 'value': 'http://ex.org/P/{k}', 'termtype': 'iri'},
+              'pred': 'http://ex.org/p/a', 'conds': [['k', 'k']], 'graphs': [], 'fmt': 'N-TRIPLES', 'cpom': None,
+              'ppom': {'pred': 'http://ex.org/q/p', 'ref': 'k'}, 'parent_first': False}
+FIXED.insert(0, XSEC_FIXED)
+
 
 def norm_case(case):
     case = copy.deepcopy(case)
@@ -680,10 +767,10 @@ def run(ctx, lean, findings):
     if drv:
         sh = drv.call('c07_shapes')
         ctx.notes.append(f'generated shapes: {sh}')
-    i4_merge(ctx, drv, ctx.budget(200, 6000) * mult)
-    # the replay inputs of the findings and fixed cases first
+    # the replay inputs of the findings and fixed cases first (the cross-section case of C07_F5 is the very first one)
     for i, case in enumerate(FIXED):
         one_case(ctx, drv, norm_case(case), os.path.join(ctx.tmp, f'fx{i}'))
+    i4_merge(ctx, drv, ctx.budget(200, 6000) * mult)
     mixed_pom_probe(ctx, os.path.join(ctx.tmp, 'mixed'))
     n = ctx.budget(150, 5000) * mult
     limit = (70 if ctx.tier == 'quick' else 800) * (2 if ctx.escalate else 1)
@@ -711,5 +798,6 @@ def replay(ctx, data):
         i4_one(ctx, drv, inp)
         return len(ctx.violations) > before or bool(ctx.disagreements)
     else:
-        one_case(ctx, drv, inp, os.path.join(ctx.tmp, 'rp'))
+        # an end-to-end case; `kind == 'sql_xsec'` (two sections, finding C07_F5) is rendered by `build_xsec`
+        one_case(ctx, drv, norm_case(inp), os.path.join(ctx.tmp, 'rp'))
     return len(ctx.violations) > before
